@@ -292,6 +292,63 @@ def _ns_after_failure(chk: Check) -> None:
                 ref = refdec.decode(it.schema, frames)
                 return {"log": log, "ref_errors": ref.errors, "statements": len([x for x in ref.items if x[0] != "ns"])}
 
+            def scenario2(it: Interp) -> dict:
+                # the other way round: a namespace declaration is rejected half-way (its name entry is assigned, then the
+                # prefix cannot be encoded), the caller carries on with statements
+                k = K.Kit(it)
+                opts = P.make_options(k, logical=None, preset=(8, 8, 8), frame_size=250, namespaces=True, generalized=True, rdf_star=integ == "generic")
+                if integ == "generic":
+                    stream = k.stream(P.STREAM_FOR[physical], k.generic_encoder(k.attr(opts, "lookup_preset")), opts)
+                else:
+                    stream = k.method(k.get(K.ST, P.STREAM_FOR[physical]), "for_rdflib", opts)
+                k.method(stream, "enroll")
+                meth = "triple" if physical == 1 else "quad"
+                a, c = C.base("a", arity), C.base("c", arity)
+                log = []
+                frames: list = []
+                accepted = []
+
+                def stmt(label: str, st: list) -> None:
+                    try:
+                        fr = k.method(stream, meth, tuple(_build(k, integ, t) for t in st))
+                        if isinstance(fr, Msg):
+                            frames.append(fr)
+                        log.append(("returned", label))
+                        accepted.append(tuple(st))
+                    except PyRaise as pr:
+                        log.append(("raised", label, it.exc_class_name(pr.exc)))
+
+                stmt("a", a)
+                try:
+                    # the label is not a string: the IRI (the namespace of c's subject) is encoded first, its lookup entries
+                    # are assigned, then building the declaration fails and the entry rows never reach the flow
+                    ns_c = sstr(Atom("c.s.scheme", nosep=True), "/", Atom("c.s.path", nosep=True), "#")
+                    k.method(stream, "namespace_declaration", 42, ns_c)
+                    log.append(("returned", "namespace_declaration(42)"))
+                except PyRaise as pr:
+                    log.append(("raised", "namespace_declaration(42)", it.exc_class_name(pr.exc)))
+                stmt("c", c)
+                stmt("a-again", a)
+                fr = k.method(k.attr(stream, "flow"), "to_stream_frame")
+                if isinstance(fr, Msg):
+                    frames.append(fr)
+                ref = refdec.decode(it.schema, frames)
+                got = freeze([x for x in ref.items if x[0] != "ns"])
+                return {"log": log, "ref_errors": ref.errors, "same": got == freeze(P.expected_items(accepted, physical)), "declared": [x for x in ref.items if x[0] == "ns"]}
+
+            inst2 = f"{integ} physical={physical}: statements after a rejected namespace_declaration"
+            for it, out in explore(chk.program, scenario2, max_paths=8, generic_strings=True):
+                chk.paths += 1
+                if out[0] != "ok":
+                    chk.fail(rule, inst2, "pyjelly.serialize.streams.Stream.namespace_declaration:driver", f"raises outside the calls: {it.exc_class_name(out[1].exc)} at {out[1].site}")
+                    continue
+                p = out[1]
+                if ("returned", "namespace_declaration(42)") in p["log"]:
+                    chk.fail("C20.EFFECT.rejection-raises", inst2, "pyjelly.serialize.streams.Stream.namespace_declaration:accepts-unsupported-iri", "a namespace label that is not a string is accepted without an exception")
+                elif not p["ref_errors"] and p["same"]:
+                    chk.ok(rule, inst2, {"calls": p["log"]})
+                else:
+                    chk.fail(rule, inst2, "pyjelly.serialize.streams.Stream.namespace_declaration:dirty-state-after-exception", f"after the rejected declaration the stream written is invalid or decodes differently: {p['ref_errors'][:2]}; calls: {p['log']}")
             inst = f"{integ} physical={physical}: namespace_declaration after a rejected statement"
             for it, out in explore(chk.program, scenario, max_paths=8, generic_strings=True):
                 chk.paths += 1
